@@ -393,7 +393,7 @@ def run(ctx):
     UNK = re.compile(r"argValueFillingFuncs_\.find\(|\b(%s)(@\d+)?\b" % "|".join(map(re.escape, it_names or ["\0"])))
 
     def _tok(k, p):
-        if re.search(r"args\.find\(\w+(@\d+)?\)", k) and "args.end()" in k and p is True:
+        if re.search(r"args\.find\((\w+(@\d+)?|\(\*\w+\))\)", k) and "args.end()" in k and p is True:
             return ["missing"]
         if UNK.search(k) and "argValueFillingFuncs_.end()" in k and p is True:
             return ["unknown"]
